@@ -118,7 +118,10 @@ func ZZDriveReader(r Reader, k, minDst, maxDst int, tag string) *ZZDrive {
 			return d
 		}
 		for i := 0; i < len(bk); i++ {
-			if i < 1 || i >= 1+n {
+			// rows outside the destination are never written; rows of the
+			// destination beyond n are not written by a successful read (the
+			// contents of dst after a failed read are unspecified)
+			if i < 1 || i >= 1+ln || (i >= 1+n && (err == nil || err == EOF)) {
 				zz.Assert(zz.And(bk[i] == ZZSentinel, bv[i] == ZZSentinel), "Read writes only the rows it reports")
 			}
 		}
